@@ -70,6 +70,11 @@ pub struct Traced {
     pub after_calls: Vec<CallRecord>,
     /// the call bound was hit before the runtime reported completion or failure
     pub call_bound_hit: bool,
+    /// disagreements between the accessor functions (`RuntimeStatus::is_done/error`,
+    /// `VmGreenThread::get_pending_host_func/get_error`) and the status kinds they summarise
+    pub accessor_issues: Vec<String>,
+    /// the calls were `run_with_granularity(budget)` (or `run()`), not `run_n_steps(budget)`
+    pub api_gran: bool,
 }
 
 pub fn sanitize(s: &str) -> String {
@@ -138,6 +143,16 @@ pub fn compile_program(src: &str) -> Result<MkRuntime, Outcome> {
     }
 }
 
+/// compile with the host functions declared in a second root file (`compile_bytecode_with_host_funcs`)
+pub fn compile_program_hostfile(src: &str, host_file: &str, host_src: &str) -> Result<MkRuntime, Outcome> {
+    let files = vec![(host_file.to_string(), host_src.to_string())];
+    match catch_unwind(AssertUnwindSafe(|| abra_core::compile_bytecode_with_host_funcs("main.abra", host_file, provider(src, &files)))) {
+        Ok(Ok(p)) => Ok(Box::new(move || Runtime::new(p.clone()))),
+        Ok(Err(e)) => Err(Outcome::Rejected(e.to_string())),
+        Err(p) => Err(Outcome::Crash(format!("compiler: {}", panic_msg(p)))),
+    }
+}
+
 pub fn run_traced(src: &str, sched: &Schedule, max_steps: u64, host: HostFn) -> Traced {
     match compile_program(src) {
         Ok(mk) => run_traced_rt(&mk, sched, max_steps, host),
@@ -152,12 +167,55 @@ pub fn run_traced(src: &str, sched: &Schedule, max_steps: u64, host: HostFn) -> 
             host_calls: vec![],
             after_calls: vec![],
             call_bound_hit: false,
+            accessor_issues: vec![],
+            api_gran: false,
         },
     }
 }
 
 pub fn run_traced_rt(mk: &MkRuntime, sched: &Schedule, max_steps: u64, host: HostFn) -> Traced {
     run_traced_after(mk, sched, max_steps, host, &[], 4_000_000)
+}
+
+/// the accessor functions must say what the status kinds say
+fn accessor_check(rt: &mut Runtime, status: &abra_core::vm::RuntimeStatus) -> Vec<String> {
+    let mut issues = vec![];
+    let is_done = matches!(status.kind, RuntimeStatusKind::Done);
+    if status.is_done() != is_done {
+        issues.push(format!("RuntimeStatus::is_done() = {} but the kind is {:?}", status.is_done(), status.kind));
+    }
+    match (&status.kind, status.error()) {
+        (RuntimeStatusKind::MainThreadError(e), Some(e2)) => {
+            if e.to_string() != e2.to_string() {
+                issues.push("RuntimeStatus::error() differs from the error in the kind".into());
+            }
+        }
+        (RuntimeStatusKind::MainThreadError(_), None) => issues.push("RuntimeStatus::error() is None for MainThreadError".into()),
+        (k, Some(_)) => issues.push(format!("RuntimeStatus::error() is Some for {:?}", k)),
+        _ => {}
+    }
+    for th in rt.iter_threads_mut() {
+        let st = th.status();
+        let p = th.get_pending_host_func();
+        match (&st, p) {
+            (VmStatus::PendingHostFunc(n), Some(m)) if *n == m => {}
+            (VmStatus::PendingHostFunc(n), x) => issues.push(format!("status PendingHostFunc({n}) but get_pending_host_func() = {:?}", x)),
+            (_, Some(m)) => issues.push(format!("get_pending_host_func() = Some({m}) but status is {:?}", st)),
+            _ => {}
+        }
+        let e = th.get_error();
+        match (&st, &e) {
+            (VmStatus::Error(a), Some(b)) => {
+                if a.to_string() != b.to_string() {
+                    issues.push("get_error() differs from the error in status()".into());
+                }
+            }
+            (VmStatus::Error(_), None) => issues.push("status Error but get_error() is None".into()),
+            (VmStatus::OutOfSteps, Some(_)) => issues.push("get_error() is Some but status is OutOfSteps".into()),
+            _ => {}
+        }
+    }
+    issues
 }
 
 fn call_record(rt: &mut Runtime, call: Call, status: &abra_core::vm::RuntimeStatus, events: Vec<Event>) -> (CallRecord, Option<Outcome>, String) {
@@ -202,6 +260,8 @@ pub fn run_traced_after(mk: &MkRuntime, sched: &Schedule, max_steps: u64, host: 
         host_calls: vec![],
         after_calls: vec![],
         call_bound_hit: false,
+        accessor_issues: vec![],
+        api_gran: false,
     };
     let mut rt = mk();
     t.main_id = rt.main().id();
@@ -214,6 +274,9 @@ pub fn run_traced_after(mk: &MkRuntime, sched: &Schedule, max_steps: u64, host: 
             let status = rt.run_n_steps(call.budget);
             let events = verif_sched::take();
             t.total_steps += status.steps_consumed as u64;
+            if t.accessor_issues.len() < 5 {
+                t.accessor_issues.extend(accessor_check(&mut rt, &status));
+            }
             let (rec, fin, err_text) = call_record(&mut rt, call, &status, events);
             if !err_text.is_empty() {
                 t.err_text = err_text;
@@ -281,7 +344,7 @@ pub fn trace_case(t: &Traced) -> (String, String) {
     for (ci, c) in t.calls.iter().chain(t.after_calls.iter()).enumerate() {
         // nothing is serviced after the call that reported completion or failure
         let serviced = c.call.service && !(finished && ci + 1 == n_main_calls);
-        calls.push(format!("{}{}", c.call.budget, if serviced { "" } else { "!" }));
+        calls.push(format!("{}{}{}", if t.api_gran { "g" } else { "" }, c.call.budget, if serviced { "" } else { "!" }));
         let mut evs: Vec<String> = vec![];
         // a Spawn step is followed by the Enqueue of the thread it created
         let mut pending_spawn: Option<(usize, usize)> = None; // (script index, position of the item)
@@ -641,4 +704,100 @@ pub fn run_batch_in_child(jobs: &[ChildJob], max_steps: u64) -> Vec<ChildResult>
         }
     }
     results
+}
+
+// ------------------------------------------------------------------ the one-call slicings of the API
+
+#[derive(Clone, Copy, Debug, PartialEq)]
+pub enum ApiMode {
+    /// `Runtime::run()`
+    Run,
+    /// `Runtime::run_with_granularity(n)`
+    Granularity(u32),
+    /// `VmGreenThread::run()` on the main thread (programs without tasks only: a blocked read would spin for ever)
+    ThreadRun,
+}
+
+/// drive a program through the API's own loops; host calls are serviced whenever the call returns
+/// `PendingHostFunc`.  At most `max_returns` returns.
+pub fn run_api(mk: &MkRuntime, mode: ApiMode, host: HostFn, max_returns: usize) -> Traced {
+    let mut t = Traced {
+        outcome: Outcome::Timeout,
+        out: String::new(),
+        err_text: String::new(),
+        value: "-".into(),
+        total_steps: 0,
+        calls: vec![],
+        main_id: 0,
+        host_calls: vec![],
+        after_calls: vec![],
+        call_bound_hit: false,
+        accessor_issues: vec![],
+        api_gran: !matches!(mode, ApiMode::ThreadRun),
+    };
+    let mut rt = mk();
+    t.main_id = rt.main().id();
+    let main_id = t.main_id;
+    verif_sched::start();
+    let r = catch_unwind(AssertUnwindSafe(|| {
+        for _ in 0..max_returns {
+            let status = match mode {
+                ApiMode::Run => rt.run(),
+                ApiMode::Granularity(n) => rt.run_with_granularity(n),
+                ApiMode::ThreadRun => {
+                    // run the main thread by itself until it stops, then let the runtime report
+                    if let Some(th) = rt.iter_threads_mut().find(|th| th.id() == main_id) {
+                        if matches!(th.status(), VmStatus::OutOfSteps) {
+                            th.run();
+                        }
+                    }
+                    rt.run_n_steps(0)
+                }
+            };
+            let events = verif_sched::take();
+            t.total_steps += status.steps_consumed as u64;
+            if t.accessor_issues.len() < 5 {
+                t.accessor_issues.extend(accessor_check(&mut rt, &status));
+            }
+            let budget = match mode {
+                ApiMode::Run => u32::MAX,
+                ApiMode::Granularity(n) => n,
+                ApiMode::ThreadRun => 0,
+            };
+            let (rec, fin, err_text) = call_record(&mut rt, Call { budget, service: true }, &status, events);
+            if !err_text.is_empty() {
+                t.err_text = err_text;
+            }
+            let st = rec.status.clone();
+            t.calls.push(rec);
+            if let Some(o) = fin {
+                if o == Outcome::Done {
+                    t.value = render_top(&rt);
+                }
+                t.outcome = o;
+                return;
+            }
+            if st == "out" && !matches!(mode, ApiMode::ThreadRun) {
+                // the API loops never hand OutOfSteps back
+                t.accessor_issues.push(format!("{:?} returned OutOfSteps", mode));
+            }
+            for thread in rt.iter_threads_mut() {
+                if let VmStatus::PendingHostFunc(n) = thread.status() {
+                    if let Some(what) = host(n, thread, &mut t.out) {
+                        t.host_calls.push((n, what));
+                    }
+                    thread.clear_pending_host_func();
+                }
+            }
+        }
+        t.call_bound_hit = true;
+    }));
+    verif_sched::stop();
+    if let Err(p) = r {
+        t.outcome = Outcome::Crash(panic_msg(p));
+        std::mem::forget(rt);
+    } else if let Err(p) = catch_unwind(AssertUnwindSafe(move || drop(rt))) {
+        t.outcome = Outcome::Crash(format!("while dropping the runtime: {}", panic_msg(p)));
+    }
+    t
 }
